@@ -285,14 +285,16 @@ func (h *Range) Unmarshal(v base.HeaderValue) error {
 		return fmt.Errorf("value provided multiple times (%v)", v)
 	}
 
-	kvs, err := keyValParse(v[0], ';')
+	kvs, err := keyValParseOrdered(v[0], ';')
 	if err != nil {
 		return err
 	}
 
 	specFound := false
 
-	for k, v := range kvs {
+	for _, kv := range kvs {
+		k, v := kv.key, kv.value
+
 		switch k {
 		case "smpte":
 			s := &RangeSMPTE{}
